@@ -341,6 +341,11 @@ def geo2grid(lat, lon, zone=0, ellipsoid=grs80, prj=utm):
             zone = int(f'{amgzone}{subzone}')
         else:
             zone = int((float(lon) - (prj.initialcm - (1.5 * prj.zonewidth))) / prj.zonewidth)
+            # longitude +180 is the meridian of -180: the first zone again, not
+            # one past the last (grid2geo accepts zones 1 to 60 only)
+            nzones = int(round(360 / prj.zonewidth))
+            if zone > nzones:
+                zone -= nzones
     if prj == isg:
         amgzone = int(str(zone)[:2])
         subzone = int(str(zone)[2])
